@@ -14,6 +14,7 @@ extern "C" {
 #include <orc/orcfunctions.h>
 #include "wrap_new.h"
 #include "wrap_old.h"
+#include "wrap_c99.h"
 OrcCompileResult __real_orc_program_compile(OrcProgram *p);
 }
 
@@ -24,8 +25,8 @@ namespace {
 // wrapper table
 // ---------------------------------------------------------------------------
 static const char *kWrappers[] = {"sim_add_s16", "sim_sub_u8", "sim_xor_u32", "sim_scale_s16", "sim_sum_s32",
-                                  "old_add_u8", "old_sub_s16", "orc_memcpy", "orc_memset"};
-static const int NWRAP = 9;
+                                  "old_add_u8", "old_sub_s16", "orc_memcpy", "orc_memset", "c99_add_s16", "c99_xor_u32"};
+static const int NWRAP = 11;
 static int g_init_count[NWRAP];
 static int g_call_count[NWRAP];
 
@@ -136,7 +137,8 @@ static void fail(const std::string &cls, const std::string &key, const std::stri
 }
 
 static uint32_t ref_elem(const std::string &w, uint32_t a, uint32_t b, int p1) {
-  if (w == "sim_add_s16") return (uint16_t)(a + b);
+  if (w == "sim_add_s16" || w == "c99_add_s16") return (uint16_t)(a + b);
+  if (w == "c99_xor_u32") return a ^ b;
   if (w == "sim_sub_u8") return (uint8_t)(a - b);
   if (w == "sim_xor_u32") return a ^ b;
   if (w == "sim_scale_s16") return (uint16_t)((int16_t)a * (int16_t)p1);
@@ -153,7 +155,7 @@ static void op_wrapper(int tid, const std::vector<std::string> &w) {
   if (wi < 0) return;
   g_call_count[wi]++;
   int esz = (name == "sim_sub_u8" || name == "old_add_u8" || name == "orc_memcpy" || name == "orc_memset") ? 1
-            : (name == "sim_xor_u32" || name == "sim_sum_s32") ? 4 : 2;
+            : (name == "sim_xor_u32" || name == "sim_sum_s32" || name == "c99_xor_u32") ? 4 : 2;
   std::vector<uint8_t> s1((size_t)n * esz + 32), s2((size_t)n * esz + 32), d((size_t)n * esz + 32, 0xAA);
   for (auto &x : s1) x = (uint8_t)r.next();
   for (auto &x : s2) x = (uint8_t)r.next();
@@ -167,6 +169,8 @@ static void op_wrapper(int tid, const std::vector<std::string> &w) {
   else if (name == "sim_sum_s32") sim_sum_s32(&acc, (orc_int32 *)s1.data(), n);
   else if (name == "old_add_u8") old_add_u8(d.data(), s1.data(), s2.data(), n);
   else if (name == "old_sub_s16") old_sub_s16((orc_int16 *)d.data(), (orc_int16 *)s1.data(), (orc_int16 *)s2.data(), n);
+  else if (name == "c99_add_s16") c99_add_s16((orc_int16 *)d.data(), (orc_int16 *)s1.data(), (orc_int16 *)s2.data(), n);
+  else if (name == "c99_xor_u32") c99_xor_u32((orc_uint32 *)d.data(), (orc_uint32 *)s1.data(), (orc_uint32 *)s2.data(), n);
   else if (name == "orc_memcpy") orc_memcpy(d.data(), s1.data(), n);
   else if (name == "orc_memset") orc_memset(d.data(), fill, n);
   bool ok = true;
